@@ -174,6 +174,8 @@ pub fn c05_idempotent(rep: &mut Rep, seed: u64) {
     let mut texts: Vec<String> = crate::gen::extras().iter().map(|s| s.to_string()).collect();
     texts.extend(crate::gen::random_texts(seed, crate::preds::scale()));
     texts.push("1,CONSUMO,CAL,ELECTRICIDAD,10,20\n1,CONSUMO,ACS,ELECTRICIDAD,5,5\n1,SALIDA,CAL,3,6\n1,SALIDA,ACS,1,2\n1,AUX,4,8\n2,CONSUMO,REF,ELECTRICIDAD,1,1\n2,AUX,1,1".to_string());
+    // replay/inputs/d12_second_normalization.csv (known finding D12)
+    texts.push("1,CONSUMO,CAL,EAMBIENTE,0.03\n1,CONSUMO,ACS,EAMBIENTE,0.03\n1,PRODUCCION,EAMBIENTE,0.01\n2,CONSUMO,ILU,ELECTRICIDAD,1".to_string());
     for t in &texts {
         let c1: Components = match t.parse() { Ok(c) => c, Err(_) => continue };
         rep.evals += 1;
@@ -189,7 +191,12 @@ pub fn c05_idempotent(rep: &mut Rep, seed: u64) {
             v
         };
         match c1.clone().normalize() {
-            Ok(c2) => {
+            Ok(mut c2) => {
+                // known finding D12: the second pass may append a production of rounding-noise size (declared + completion != use in f32);
+                // such a component (every value below 1e-6 kWh, comment of the automatic completion) is reported under its own clause
+                let before = c2.data.len();
+                c2.data.retain(|e| !matches!(e, Energy::Prod(p) if p.comment.starts_with("Equilibrado de consumo") && p.values.iter().all(|v| v.abs() < 1e-6) && p.values.iter().any(|v| *v != 0.0)));
+                if c2.data.len() != before { rep.fail("C05.idempotent.rounding_noise", t, format!("the second normalization appends {} production component(s) whose values are all below 1e-6 kWh", before - c2.data.len())); }
                 let (a, b) = (items(&c1), items(&c2));
                 let same = a.len() == b.len() && a.iter().zip(&b).all(|(x, y)| x.0 == y.0 && veq(&x.1, &y.1));
                 if !same { let d = a.iter().zip(&b).find(|(x, y)| !(x.0 == y.0 && veq(&x.1, &y.1))).map(|(x, y)| format!("{} {:?} -> {} {:?}", x.0, x.1, y.0, y.1)).unwrap_or_default(); rep.fail("C05.idempotent", t, format!("normalizing the normalized set changes it ({} components before, {} after; first difference: {})", a.len(), b.len(), d)); }
